@@ -7,6 +7,7 @@ import (
 	"io"
 	"os"
 	"path/filepath"
+	"strings"
 	"time"
 
 	"github.com/superfly/litefs"
@@ -114,7 +115,7 @@ func init() {
 	register(&CheckDef{
 		ID:    "C16",
 		Level: "exploration",
-		Rule:  "seeded images (every page size, 1..600 pages incl. checksum-block boundaries, rollback or WAL header, truncated and garbage inputs) imported over POST /import into an absent, empty, dropped or populated database (rollback or WAL mode, with committed un-checkpointed WAL frames or a leftover hot journal, same or different page size) on a primary with a replica; exports over GET /export. Oracle: a successful import is exactly one new TXID, the export equals the input except bytes 24..27 and 40..43 of page 1, the replica converges to the identical image and checksum; a failed import leaves image, position and log unchanged, does not stop the node, and a fresh Store still opens the directory; the export of an idle database equals the committed image of the position it is taken at. One run in five is two overlapping imports of one database (the first paused in the middle of its upload while it holds the write lock, the second queued behind it; same or different page sizes; new or existing database): each ends as it would have alone after the other, the node keeps running and restarts. evaluations = imports+exports; distinct = distinct (target state, image class, outcome) tuples; non-trivial = run with >= 1 successful import verified on the replica",
+		Rule:  "seeded images (every page size, 1..600 pages incl. checksum-block boundaries, rollback or WAL header, truncated and garbage inputs) imported over POST /import into an absent, empty, dropped or populated database (rollback or WAL mode, with committed un-checkpointed WAL frames or a leftover hot journal, same or different page size) on a primary with a replica; exports over GET /export. Oracle: a successful import is exactly one new TXID, the export equals the input except bytes 24..27 and 40..43 of page 1, the replica converges to the identical image and checksum; a failed import leaves image, position and log unchanged, does not stop the node, and a fresh Store still opens the directory; the export of an idle database equals the committed image of the position it is taken at. One run in five is two overlapping imports of one database (the first paused in the middle of its upload while it holds the write lock, the second queued behind it; same or different page sizes; new or existing database): each ends as it would have alone after the other, the node keeps running and restarts; one in eleven is an import that is waiting for the write lock (an application connection is in a write transaction) when the node is demoted: it is answered with an error, the handler does not panic, nothing changes. evaluations = imports+exports; distinct = distinct (target state, image class, outcome) tuples; non-trivial = run with >= 1 successful import verified on the replica",
 		Run:   runC16,
 		NonTrivial: func(r *Run) bool {
 			return r.Stats["c16.import.ok"] > 0
@@ -488,10 +489,109 @@ func c16Overlap(r *Run) {
 	r.State("overlap/%v/%v/%d/%d", psA == psB, pre != nil, a.res.Code, b.res.Code)
 }
 
+// c16ImportLosesPrimary: an import is waiting for the write lock (an application
+// connection is in a write transaction) when the node stops being primary. The
+// import must be refused with an error, must not touch the database, and the
+// handler must not panic; the application's transaction is not disturbed.
+func c16ImportLosesPrimary(r *Run) {
+	t := r.Tape
+	pr := newPair(r, false, 0)
+	if !pr.open() {
+		return
+	}
+	h := &hist{r: r, n: pr.p, name: "db"}
+	h.pageSize = []uint32{512, 4096}[t.Next(2)]
+	h.jmode = ModeDelete
+	h.maxPages = 10
+	if !h.openConns(1) {
+		return
+	}
+	h.commit(t)
+	h.commit(t)
+	if r.Failed() || h.ref.N() == 0 {
+		return
+	}
+	wal := t.Chance(1, 2)
+	if wal {
+		if !h.toWAL() {
+			return
+		}
+		h.commit(t)
+	}
+	db := pr.p.Store.DB(h.name)
+	before := db.Pos()
+	// the application holds the write lock
+	c := h.conns[0]
+	ok := c.LockShared() == 0
+	if ok && wal {
+		if _, e := c.WalBeginRead(); e != 0 {
+			ok = false
+		} else if _, e := c.WalBeginWrite(); e != 0 {
+			ok = false
+		}
+	} else if ok {
+		ok = c.LockReserved() == 0
+	}
+	if !ok {
+		return
+	}
+	im := MakeImage(h.pageSize, uint32(t.Range(1, 8)), false, 900)
+	done := make(chan HTTPResult, 1)
+	go func() {
+		ctx, cancel := context.WithTimeout(context.Background(), 30*time.Second)
+		defer cancel()
+		done <- pr.p.HTTP(ctx, "POST", "/import?name="+h.name, nil, bytes.NewReader(im.Bytes()), false)
+	}()
+	time.Sleep(time.Duration(t.Range(5, 200)) * time.Millisecond)
+	pr.p.Store.Demote()
+	var res HTTPResult
+	select {
+	case res = <-done:
+	case <-time.After(40 * time.Second):
+		r.Failf("c16.import-demoted", "an import that was waiting for the write lock when the node was demoted has not been answered after 40 s")
+		return
+	}
+	desc := fmt.Sprintf("POST /import waiting for the write lock (WAL mode %v) when the node is demoted => %d %s", wal, res.Code, strings.TrimSpace(string(res.Body)))
+	r.Logf("%s", desc)
+	if !r.Check(!res.Panicked, "c16.panic", "%s: handler panicked: %s", desc, res.PanicMsg) {
+		return
+	}
+	if !r.Check(!pr.p.Exited, "c16.exit", "%s: the node stopped (Exit %d)", desc, pr.p.ExitCode) {
+		return
+	}
+	if !r.Check(res.Code != 200, "c16.import-demoted", "%s: the import was carried out although an application connection held the write lock the whole time", desc) {
+		return
+	}
+	r.Check(db.Pos() == before, "c16.failed-changed", "%s: the position moved %s -> %s", desc, before, db.Pos())
+	// the application's transaction ends; the database is what it was
+	if wal {
+		c.WalEndWrite()
+		c.WalEndRead()
+	}
+	c.UnlockAll()
+	disk, err := ReadDiskImage(pr.p.Store.DBPath(h.name))
+	if r.Check(err == nil, "c16.failed-changed", "%s: %v", desc, err) {
+		if d := DiffImages(disk, h.ref); d != "" {
+			r.Failf("c16.failed-changed", "%s: the refused import changed the database: %s", desc, d)
+		}
+	}
+	r.Count("c16.import.refused")
+	r.Count("c16.import-demoted.checked")
+	r.State("import-demoted/%v/%d", wal, res.Code)
+}
+
 func runC16(r *Run) {
-	if r.Tape.Chance(1, 5) {
+	switch r.Tape.Pick([]int{16, 4, 2}) {
+	case 1:
 		r.Cfg["scenario"] = "overlap"
 		c16Overlap(r)
+		return
+	case 2:
+		r.Cfg["scenario"] = "import-demoted"
+		c16ImportLosesPrimary(r)
+		return
+	}
+	if false {
 		return
 	}
 	t := r.Tape
